@@ -1563,6 +1563,13 @@ func (pc *Context) ParseArguments(osenv *rsyncos.Env, args []string) error {
 		}
 	}
 
+	if opts.delete_mode != 0 && opts.recurse == 0 {
+		// rsync/options.c also accepts --dirs (-d) here, but the deletion pass
+		// of this implementation descends into every directory of the
+		// destination and would empty the ones whose contents were not listed.
+		return fmt.Errorf("--delete does not work without --recursive (-r)")
+	}
+
 	if opts.relative_paths < 0 {
 		if opts.files_from != "" {
 			opts.relative_paths = 1
